@@ -252,7 +252,7 @@ func collectTVarFTypeWithSet(visited SSet, ft FType) []string {
 					return _v1.Ftype
 				}, _r0)
 			})), (func(_r0 []FType) []string { return slice.Collect(recurse, _r0) }))
-			return slice.Append(fres, tres)
+			return slice.Append(tres, fres)
 		}))
 	case FType_FUnion:
 		ut := _v9.Value
@@ -267,7 +267,7 @@ func collectTVarFTypeWithSet(visited SSet, ft FType) []string {
 				}, _r0)
 			})), (func(_r0 []FType) []string { return slice.Collect(recurse, _r0) }))
 			tres := frt.Pipe(ut.Targs, (func(_r0 []FType) []string { return slice.Collect(recurse, _r0) }))
-			return slice.Append(cres, tres)
+			return slice.Append(tres, cres)
 		}))
 	case FType_FFunc:
 		fnt := _v9.Value
